@@ -36,6 +36,7 @@ fn observe_memory(t: &mut Tracer, p: &Package, origin: &str, emitted: bool, gets
     o.gets = gets;
     o.digests = emitted;
     o.off_mem = Some(p.metadata.get_package_segment_offsets());
+    o.file_api = true;
     for e in pkgobs::observe_all(&bytes, &o) { t.emit(e); }
     bytes
 }
@@ -180,6 +181,7 @@ pub fn run(args: &Args) {
             }
             let mut o = Opts::new(&format!("asset:{}", p.rsplit('/').next().unwrap()));
             o.gets = gets;
+            o.file_api = true;
             for e in pkgobs::observe_all(bytes, &o) { t.emit(e); }
         }
     }
